@@ -84,6 +84,10 @@ print(decorated, coroutine, Klass, a1, b1, c1, d1, i, j, k, fh, l1, l2, x2, x3, 
     result = [cell for row in data for cell in row if cell]
     return outer, Local, value, done, result, only, extra, sep, index, missing
 ''',
+    # a multi-line import that starts on a line with non-ASCII text and puts the alias on a later, ASCII-only line; decorators whose
+    # text contains `def <name>` / `class <name>`
+    'from m\u00f3dulo import (nombre\n        as alias, otro\n    as segundo)\nprint(alias, segundo)\n'
+    'def register(text):\n    return lambda f: f\n@register("def run")\ndef run():\n    @register("class Inner")  # class Inner\n    class Inner:\n        pass\n    return Inner\nprint(run)\n',
     # captures of a match statement
     'def f(v, w):\n    match v:\n        case [x, *rest] if x:\n            return x, rest\n        case {"k": q, ** more}:\n            return q, more\n'
     '        case {**\\\n  only}:\n            return only\n        case int(real=r) as whole:\n            return r, whole\n        case (1 | 2) as num, [*_, last]:\n'
